@@ -176,6 +176,7 @@ GhostStep(g, prev, r) ==
       inf1 == IF HandshakeDone(r)
               THEN { [pid |-> out[i].pkt.pid, tag |-> IF out[i].pkt.kind = "pubrel" THEN "rel" ELSE "pub"]
                      : i \in { j \in DOMAIN out : out[j].ev = "send" /\ out[j].pkt.kind \in {"publish", "pubrel"} } }
+                   \cup (IF NewSession(r) THEN {} ELSE { [pid |-> e.pid, tag |-> "rel"] : e \in { x \in g.await : x.kind = "pubrel" } })
               ELSE IF IsSend(r, {"publish"}) /\ p.qos > 0 /\ SendsK(out, {"publish"}) # <<>>
                    THEN inf0 \cup { [pid |-> p.pid, tag |-> "pub"] }
               ELSE IF SendsK(out, {"pubrel"}) # <<>> /\ SendsK(out, {"pubrel"})[1].pkt.pid \notin { e.pid : e \in inf0 }
